@@ -322,6 +322,15 @@ func init() {
 			"for d=1,2 (thorough: d=3 over 11 constructs) × every jump/plain leaf valid at the innermost hole (trace point, assignment, [conditional] break/continue, labelled break/continue to every enclosing target, [conditional] return); " +
 			"each program records a trace of executed points and final variables; non-trivial = distinct (program, Go trace) pairs whose trace has at least two points",
 		Gen: c05Gen_,
+		// classic subset: no type switches on non-default kinds, no select/goroutine constructs
+		Classic: func(p *oracle.Prog) bool {
+			for _, bad := range []string{"typeswitch", "select", "range-chan", "goto"} {
+				if strings.Contains(p.Body[:strings.Index(p.Body, "\n")], bad) {
+					return false
+				}
+			}
+			return true
+		},
 		Sig: func(p *oracle.Prog, want, got string) string {
 			line := p.Body
 			if i := strings.Index(line, "\n"); i > 0 {
